@@ -16,14 +16,14 @@ FUNCTIONS = ["ckl.nodes.NodeDeref.evaluate", "ckl.nodes.NodeDerefAssign.evaluate
              "ckl.functions.FuncAdd.execute", "ckl.functions.FuncLength.execute",
              "ckl.parser (expression text is parsed by the real parser)"]
 OUTSIDE = ["sequences longer than the bound", "indices outside [-R, R]",
-           "find_last with explicit start (not in the property)",
+           "find_last with a negative start",
            "find with negative start"]
 REACH = {"value", "error"}
 
 OPS_IDX = ["index", "assign_at", "delete_at", "index_alias"]
 OPS_2 = ["slice2", "substr2", "sublist2", "split_join"]
 OPS_1 = ["slice1", "substr1", "sublist1", "insert_at"]
-OPS_FIND = ["find", "find_last", "find_start", "in"]
+OPS_FIND = ["find", "find_last", "find_start", "find_last_start", "in"]
 
 
 def bounds(tier):
@@ -210,6 +210,11 @@ def run_find(ctx, cell, key):
         start = ctx.int("start", 0, R)
         env["k"] = vint(start)
         out = run_ckl("find(s, p, start = k)", env)
+    elif op == "find_last_start":
+        # documented: start is the highest position at which a match may begin
+        start = ctx.int("start", 0, R)
+        env["k"] = vint(start)
+        out = run_ckl("find_last(s, p, start = k)", env)
     elif op == "find":
         out = run_ckl("find(s, p)", env)
     elif op == "find_last":
@@ -225,10 +230,12 @@ def run_find(ctx, cell, key):
     exp = -1
     if kind == "list" or True:
         rng = range(0, n - m + 1)
-        if op == "find_last":
+        if op in ("find_last", "find_last_start"):
             rng = reversed(rng)
         for k in rng:
             if op == "find_start" and k < start:
+                continue
+            if op == "find_last_start" and k > start:
                 continue
             if occurs(k):
                 exp = k
